@@ -97,11 +97,11 @@ pub fn instantiate(
         msg.liquid_stake_token_denom,
     )?;
 
-    let pending_batch = Batch::new(
-        1,
-        Uint128::zero(),
-        env.block.time.seconds() + config.batch_period,
-    );
+    // The batch period is not bounded by validation: refuse instead of overflowing.
+    let Some(next_batch_time) = env.block.time.seconds().checked_add(config.batch_period) else {
+        return Err(StdError::generic_err("batch period is too large").into());
+    };
+    let pending_batch = Batch::new(1, Uint128::zero(), next_batch_time);
 
     // Set pending batch and batches
     BATCHES.save(deps.storage, 1, &pending_batch)?;
